@@ -259,6 +259,7 @@ CAST: str = CASE.get('cast', 'int')
 
 def cast_of_int(v: int) -> bool:
 	"""
+	pre: in_bound(v)
 	post: _
 	"""
 	node = StubNode('', StubNode(CAST))
